@@ -67,6 +67,7 @@ func (s *Source) DrawBits(n int) uint64 {
 	}
 	return d.Val & mask(n)
 }
+
 // IsEnded tells the library's stream wrapper that the stream is exhausted (and stays so).
 func (s *Source) IsEnded() bool { return s.Ended }
 
